@@ -285,7 +285,7 @@ impl Project {
     }
 }
 
-fn write_project(dir: &Path, r: &mut Rng, cfg: &TrendConfig, auto: bool, content_exclude: bool) {
+fn write_project(dir: &Path, r: &mut Rng, cfg: &TrendConfig, auto: bool, content_exclude: bool, count_all: (bool, bool)) {
     let _ = std::fs::remove_dir_all(dir);
     std::fs::create_dir_all(dir.join("src")).unwrap();
     for name in ["a.rs", "b.rs", "c.rs", "d.py"] {
@@ -301,6 +301,8 @@ fn write_project(dir: &Path, r: &mut Rng, cfg: &TrendConfig, auto: bool, content
     if content_exclude {
         t += "exclude = [\"**/d.py\"]\n";
     }
+    if count_all.0 { t += "skip_comments = false\n"; }
+    if count_all.1 { t += "skip_blank = false\n"; }
     t += "[trend]\n";
     if let Some(v) = cfg.max_entries { t += &format!("max_entries = {v}\n"); }
     if let Some(v) = cfg.max_age_days { t += &format!("max_age_days = {v}\n"); }
@@ -314,7 +316,8 @@ fn emit_binary_history(sink: &mut Sink, r: &mut Rng, scratch: &str, bin: &str, s
     let dir = PathBuf::from(scratch).join(format!("h{}", sink.n));
     let cfg = gen_cfg(r, false);
     let content_exclude = r.chance(1, 4);
-    write_project(&dir, r, &cfg, true, content_exclude);
+    let count_all = (r.chance(1, 3), r.chance(1, 3));
+    write_project(&dir, r, &cfg, true, content_exclude, count_all);
     let p = Project { dir: dir.clone(), bin: bin.to_string() };
     let mut now: u64 = 1_700_000_000;
     for _ in 0..steps {
